@@ -443,8 +443,10 @@ def shrink(case, drv, rng, tier, kind, key):
         except Exception:
             return False
         return any(f[0] == kind and f[1] == key for f in fs)
+    import time
+    deadline = time.time() + 25          # a shrunk input is a convenience: never spend minutes on it
     changed = True
-    while changed:
+    while changed and time.time() < deadline:
         changed = False
         cands = []
         for ci in range(len(case['calls'])):
@@ -516,6 +518,8 @@ def shrink(case, drv, rng, tier, kind, key):
                 del c['calls'][ci]['kw'][ki]
                 cands.append(c)
         for c in cands:
+            if time.time() > deadline:
+                break
             if fails(c):
                 case = c
                 changed = True
